@@ -25,6 +25,7 @@ ASSUMPTIONS = [
 VALSEQ = [1.0, 0.0, None, 2.0, -1.5]
 SCALARS = [0, 2, 2.5, None]          # None = NaN scalar
 
+LONGP = {'ij': 'inner', 'oj': 'outer'}
 BIN = ['add', 'sub', 'mul', 'div', 'pow', 'gt', 'ge', 'lt', 'le', 'min', 'max']
 
 
@@ -172,6 +173,20 @@ def check_pair(case):
                         out.viol('wrong-value', p2, freq=True, **sig)
                 except Exception as e:
                     out.viol('raised', '%s_(%s, join=%s) on date_range indexes raised %s: %s' % (op, desc, how, type(e).__name__, e), exc=type(e).__name__, freq=True, **sig)
+            if op in ('add', 'lt'):
+                # the same instants stored at another resolution (nanoseconds / seconds against the default microseconds) are the same timestamps
+                for unit in ('ns', 's'):
+                    out.sub()
+                    try:
+                        b2 = tm.build_series(mb)
+                        b2.index = b2.index.as_unit(unit)
+                        ru = opfun(op)(tm.build_series(ma), b2, join=how)
+                        out.call()
+                        pu = result_problem(ru, exp, '%s_(%s, join=%s) with b indexed in datetime64[%s]' % (op, desc, how, unit))
+                        if pu:
+                            out.viol('wrong-value', pu, unit=unit, **sig)
+                    except Exception as e:
+                        out.viol('raised', '%s_(%s, join=%s) with b indexed in datetime64[%s] raised %s: %s' % (op, desc, how, unit, type(e).__name__, e), exc=type(e).__name__, unit=unit, **sig)
             if op in ('add', 'mul', 'min', 'max'):
                 try:
                     rev = opfun(op)(tm.build_series(mb), tm.build_series(ma), join=how)
@@ -309,6 +324,20 @@ def check_frames(case):
                                 out.viol('div-inf', '%s contains inf' % what, **sig)
                         except Exception:
                             pass
+                    if op in ('add', 'div'):
+                        # the policies in their other accepted spellings (the long names presync's own documentation uses, upper case)
+                        for js, cs in ((LONGP[how], LONGP[colpol]), (how.upper(), colpol.upper())):
+                            out.sub()
+                            what2 = '%s_(%s, join=%r, columns=%r)' % (op, desc, js, cs)
+                            try:
+                                r2 = opfun(op)(tm.build_frame(fa), tm.build_frame(fb), join=js, columns=cs)
+                                out.call()
+                            except Exception as e:
+                                out.viol('raised', '%s raised %s: %s' % (what2, type(e).__name__, e), exc=type(e).__name__, spelling=cs, **sig)
+                                continue
+                            p2 = _bool_frame_problem(r2, exp, what2) if len(cols) > 1 else result_problem(r2, exp[cols[0]], what2)
+                            if p2:
+                                out.viol('wrong-value', p2, spelling=cs, **sig)
     # ---- three frames through the list forms. columns='oj': column sets {a,b}, {b,c}, {a,c} (a missing column is the neutral element
     #      at every step); columns='ij': all three over {a,b} (so that the running result keeps two columns)
     third_desc = [case['a'][0], (case['a'][1] + 1) % 5]
